@@ -60,8 +60,9 @@ static bool make_input(int e, int o, pv_rng* rng, input* in) {
     in->str = pv_exact_str(s); free(s);
     return true;
 }
+static bool g_stale_out;       /* leave a stale pointer (the most recently freed seed) in *seed_out, as callers that reuse a variable do */
 static int call(const input* in, polyseed_data** out) {
-    *out = NULL;
+    *out = (g_stale_out && pv_w->cache_ptr) ? (polyseed_data*)pv_w->cache_ptr : NULL;
     switch (in->e) {
     case E_CREATE: return pv_api_create(in->features, out);
     case E_DECODE: return pv_api_decode(in->str, in->coin, NULL, out);
@@ -96,6 +97,9 @@ static void run_matrix(uint64_t idx, pv_rng* rng) {
     input in;
     if (!make_input(e, o, rng, &in)) { pv_countf(1, "matrix.unbuildable.%s.%s", ENAME[e], ONAME[o]); return; }
     char what[64]; snprintf(what, sizeof what, "%s/%s", ENAME[e], ONAME[o]);
+    /* half of the cases: address-reusing allocator + stale value left in the out parameter */
+    pv_w->reuse_mode = (idx / (E_N * O_N)) & 1; g_stale_out = pv_w->reuse_mode;
+    if (g_stale_out) { polyseed_data* w0 = NULL; uint8_t* b0 = malloc(32); pv_mseed m0; memset(&m0, 0, sizeof m0); pv_m_image(&m0, b0); if (pv_api_load(b0, &w0) == POLYSEED_OK) pv_api_free(w0); free(b0); PV_COUNT("matrix.cases_with_stale_out_pointer_and_address_reuse", 1); }
     int held = pv_ledger_live();
     /* fault-free reference execution */
     polyseed_data* s; int st0 = call(&in, &s);
@@ -141,6 +145,7 @@ static void run_matrix(uint64_t idx, pv_rng* rng) {
     pv_api_free(NULL);
     if (pv_ev_count(PV_EV_FREE) || pv_ev_count(PV_EV_MEMZERO)) { ok = false; pv_violation("C15/free-null-reaches-free", "polyseed_free(NULL) called %d free / %d memzero", pv_ev_count(PV_EV_FREE), pv_ev_count(PV_EV_MEMZERO)); }
     else PV_COUNT("free_null.silent", 1);
+    g_stale_out = false; pv_w->reuse_mode = 0; if (pv_w->cache_ptr) { free(pv_w->cache_ptr); pv_w->cache_ptr = NULL; }
     if (ok) PV_COUNT("matrix.cases_ok", 1);
     if (idx < E_N * O_N) pv_sample("matrix", "%s: %d allocation request(s) fault-free; failing request 1..%d; input %s", what, nalloc, nalloc + 1, in.str ? pv_esc(in.str) : in.buf ? pv_hex(in.buf, 32) : "create");
     input_free(&in);
